@@ -37,6 +37,8 @@ structure Mem where
   inflight : List (Nat × Nat) := []          -- (p, fetch offset)
   fetched : List (Nat × Nat × Nat) := []     -- (p, fetch offset, last offset returned)
   dead : Bool := false                       -- killed or stopped
+  subTopics : Option (List Nat) := none      -- topics of the current subscription
+  joined : Bool := false                     -- `joinTopics` comes from a registered JoinGroup
 deriving Inhabited
 
 structure Gen where
@@ -72,6 +74,7 @@ def inRange (p o : Nat) (r : Nat × Nat × Nat) : Bool := r.1 == p && r.2.1 ≤ 
 /-- the guard of an event: the mechanism that must have been in place for it to happen -/
 def guard (s : St) : Ev → Bool
   | .sub _ => true
+  | .subT _ _ => true
   | .revS m => (s.mem m).inCb == 0 && (s.mem m).prepared == false
   | .revE m => (s.mem m).inCb == 1
   | .joinS m _ _ => (s.mem m).prepared == true && (s.mem m).inCb == 0
@@ -98,7 +101,11 @@ def guard (s : St) : Ev → Bool
   | .asgS m g tps =>
     match (s.mem m).synced with
     | some (g', tps') =>
-      (s.mem m).inCb == 0 && g' == g && (tps == tps' || ((s.mem m).subChanged && tps == []))
+      -- a non-empty assignment is adopted only under the subscription the JoinGroup advertised
+      -- (`_do_rejoin_group`: `if not subscription.active: return False`)
+      (s.mem m).inCb == 0 && g' == g &&
+      ((tps == tps' && (tps == [] || ((s.mem m).joined && (s.mem m).subTopics == some (s.mem m).joinTopics)))
+        || ((s.mem m).subChanged && tps == []))
     | none => false
   | .asgE m => (s.mem m).inCb == 2
   | .snap m tps => (s.mem m).cur == tps
@@ -116,17 +123,18 @@ def guard (s : St) : Ev → Bool
 
 /-- the member whose record an event changes -/
 def actor : Ev → Option Nat
-  | .sub m | .revS m | .revE m | .asgS m _ _ | .asgE m | .joinS m _ _ | .joinR m _ | .syncR m _ _
+  | .sub m | .subT m _ | .revS m | .revE m | .asgS m _ _ | .asgE m | .joinS m _ _ | .joinR m _ | .syncR m _ _
   | .fS m _ _ | .fR m _ _ _ | .gone m | .leaveR m => some m
   | _ => none
 
 /-- the acting member's record after an accepted event -/
 def upd (x : Mem) : Ev → Mem
   | .sub _ => { x with gate := false, cur := [], subChanged := true, inflight := [], fetched := [] }
+  | .subT _ topics => { x with subTopics := some topics }
   | .revS _ => { x with gate := false, inCb := 1, prepared := false }
   | .revE _ => { x with inCb := 0, prepared := true }
   | .joinS _ topics parked =>
-    if parked then { x with waiting := true, joinTopics := topics, joinGen := none, synced := none }
+    if parked then { x with waiting := true, joinTopics := topics, joinGen := none, synced := none, joined := true }
     else x
   | .joinR _ g? => { x with waiting := false, joinGen := if g?.isSome then g? else x.joinGen }
   | .syncR _ g tps => { x with synced := some (g, tps) }
